@@ -33,7 +33,8 @@ type world struct {
 	nsh       int
 	st        *agent.DiskBucketStorage
 	spec      [][]*entry // per shard, in write order
-	erased    []map[int64]bool
+	erased    []map[int64]bool // ids handed out in this session and erased since (ids are per-session handles)
+	maxID     []int64          // highest id handed out by put/tail in this session, per shard
 	corrupted []bool
 	drained   []bool // tail returned id 0 in this session
 	putBodies []map[string]bool
@@ -181,6 +182,9 @@ func (w *world) put(sh int, t uint32, body []byte, age bool, fails *[]failure) i
 	w.rec(sh, fmt.Sprintf("OPut %d %s %s", t, hexB(body), vu.B(age)), fmt.Sprintf("RPut (Some %d)", id),
 		fmt.Sprintf("P%d:t%d:l%d%s", sh, t, len(body), map[bool]string{true: ":age", false: ""}[age]), "put")
 	w.spec[sh] = append(w.spec[sh], &entry{time: t, body: append([]byte(nil), body...), id: id})
+	if id > w.maxID[sh] {
+		w.maxID[sh] = id
+	}
 	w.putBodies[sh][string(body)] = true
 	return id
 }
@@ -229,7 +233,10 @@ func (w *world) dropID(sh int, id int64) {
 			break
 		}
 	}
-	w.erased[sh][id] = true
+	// erasing an id that was not handed out yet is a NOP; that id may be given to a later second of this session
+	if id > 0 && id <= w.maxID[sh] {
+		w.erased[sh][id] = true
+	}
 }
 
 func (w *world) erase(sh int, id int64, fails *[]failure) {
@@ -246,6 +253,12 @@ func (w *world) tail(sh int, fails *[]failure) (uint32, int64) {
 	nFiles := len(shardFiles(w.dir, sh))
 	t, id := w.st.ReadNextTailBucket(sh)
 	w.rec(sh, "OTail", fmt.Sprintf("RTail %d %d", t, id), fmt.Sprintf("T%d", sh), "tail")
+	if id > w.maxID[sh] {
+		w.maxID[sh] = id
+	}
+	if id != 0 && w.erased[sh][id] {
+		*fails = append(*fails, failure{"never_returns_erased", fmt.Sprintf("tail handed out id=%d again after it was erased in this session", id)})
+	}
 	if len(shardFiles(w.dir, sh)) < nFiles {
 		w.kinds["tail_removed_file"]++
 	}
@@ -347,6 +360,7 @@ func (w *world) restart() {
 			x.id = 0
 		}
 		w.erased[sh] = map[int64]bool{}
+		w.maxID[sh] = 0
 		w.drained[sh] = false
 	}
 }
@@ -483,6 +497,7 @@ func (w *world) reset() {
 	w.putBodies = make([]map[string]bool, w.nsh)
 	w.corrupted = make([]bool, w.nsh)
 	w.drained = make([]bool, w.nsh)
+	w.maxID = make([]int64, w.nsh)
 	for i := range w.erased {
 		w.erased[i] = map[int64]bool{}
 		w.putBodies[i] = map[string]bool{}
